@@ -73,14 +73,14 @@ def run_c05(ctx):
 
 
 def run_c14(ctx):
-    res = l1_both(ctx, release_scale_quick="1.0")
+    res = l1_both(ctx, release_scale_quick="1.0", miri_shards=4)
     import l2
     l2.c14_transport(ctx, res)
     return res
 
 
 def run_c20(ctx):
-    return l1_both(ctx, release_scale_quick="1.0", miri_shards=0)
+    return l1_both(ctx, release_scale_quick="1.0", miri_shards=8)
 
 
 def run_c06(ctx):
@@ -117,8 +117,11 @@ def run_c19(ctx):
     return res
 
 
+MIRI_SHARDS = {"C12": 4, "C15": 4, "C17": 2}
+
+
 def run_dbg(ctx):
-    return l1_both(ctx)
+    return l1_both(ctx, miri_shards=MIRI_SHARDS.get(ctx.pid, 0))
 
 
 DBG_ASSUME = COMMON_ASSUMPTIONS + [
